@@ -117,14 +117,15 @@ fn child(cases: &str, out: &str) {
         // progress marker first, so that a crash or a timeout is attributed to this case
         writeln!(f, "BEGIN {}", i).unwrap();
         f.flush().unwrap();
-        let t0 = std::time::Instant::now();
+        // CPU time of this thread (not wall time: the limit below must not depend on the machine's load)
+        let t0 = thread_cpu_millis();
         let o = outcome_of(&c, &tmp);
         let o = if c.kind == "lcov" && o == "panic" {
             format!("panic {}", corrlib::lcov::LAST_PANIC_SITE.with(|c| c.borrow().clone()))
         } else {
             o
         };
-        writeln!(f, "END {} {} {}", i, t0.elapsed().as_millis(), o).unwrap();
+        writeln!(f, "END {} {} {}", i, thread_cpu_millis().saturating_sub(t0), o).unwrap();
         i += 1;
     }
     let _ = std::fs::remove_dir_all(&tmp);
@@ -151,7 +152,7 @@ fn run_batch(rep: &Report, cases: &[Case], tag: &str) -> Vec<(String, u128)> {
             }
         }
         let exe = std::env::current_exe().unwrap();
-        let limit = std::time::Duration::from_millis(5_000 + 20 * (cases.len() - start) as u64);
+        let limit = std::time::Duration::from_millis(20_000 + 50 * (cases.len() - start) as u64);
         let mut child = Command::new(exe).arg("--child").arg(&cf).arg(&of).spawn().unwrap();
         let t0 = std::time::Instant::now();
         let mut timed_out = false;
@@ -635,6 +636,13 @@ pub fn replay(rep: &mut Report, case: &serde_json::Value) {
     if !(o.starts_with("ok") || o.starts_with("err")) {
         rep.fail("oracle", None, format!("replayed case: {}", o), case.clone());
     }
+}
+
+/// user + system CPU time consumed by this process (all its threads), in milliseconds
+fn thread_cpu_millis() -> u128 {
+    let mut ts = libc::timespec { tv_sec: 0, tv_nsec: 0 };
+    unsafe { libc::clock_gettime(libc::CLOCK_PROCESS_CPUTIME_ID, &mut ts) };
+    ts.tv_sec as u128 * 1000 + ts.tv_nsec as u128 / 1_000_000
 }
 
 fn main() {
